@@ -177,6 +177,10 @@ def run_case(case):
                         relaxed = True
                     bad_e = ["rfn", "neg", [["ref", some]], restr]
                     bad_p = ["rcmp", "lt", ["ref", some], ["lit", 1], restr]
+                    if restr and rng.random() < 0.4:
+                        # a function every engine has registered under that name, restricted by the expression
+                        bad_e = ["rfn", "both", [["ref", some]], restr]
+                        bad_p = ["cmp", "lt", bad_e, ["lit", 1]]
                     nest = rng.random()
                     if nest < 0.35:
                         # the unsupported call is an argument of a function that itself declares
